@@ -333,7 +333,7 @@ Proof.
   - (* N4 *)
     intros d t k Hf Hv H _. rewrite (m_strtod_fmt_g d Hf Hv) in H. injection H as <- _. reflexivity.
   - (* N4z *)
-    intros d t k Hf Hv H Hz. rewrite (m_strtod_fmt_g d Hf Hv) in H. injection H as <- _. exact Hz.
+    intros d t k Hf Hv H _ Hz. rewrite (m_strtod_fmt_g d Hf Hv) in H. injection H as <- _. exact Hz.
   - (* N5a *)
     intros z Hz. unfold m_fmt_g, int_of. rewrite (sat_int_of_int z Hz).
     rewrite (proj2 (sf_same_eq _ _) eq_refl). reflexivity.
